@@ -101,8 +101,58 @@ def generate(ctx):
                     pre = strict_prefix()
                     yield [f"file x.cab {c2.hex()}", "new cab"] + pre + tail, dict(family="cab.corrupt", variant=what, cab=name, block=bi,
                                                                                   pos=pos, value=v, expect=exp, altered=True, params=pre)
+    # --- cab.corrupt-split: a checksummed block split across two cabinets of a set (each part carries its own checksum):
+    # payload bytes of the leading and of the trailing part, their checksum and size fields
+    yield from split_block_cases(ctx)
     # --- oab.corrupt
     yield from oab_cases(ctx)
+
+def split_block_cases(ctx):
+    from vgen import cab as vcab
+    import struct
+    rng = ctx.rng
+    for comp in (0, 1):
+        datas = [bytes(rng.choice(b"abcab \n") if comp else rng.randrange(256) for _ in range(k)) for k in (400, 150)]
+        payloads = [(d, len(d)) if comp == 0 else (mszip_block(d), len(d)) for d in datas]
+        whole = b"".join(datas)
+        files = [dict(name=b"a.bin", length=300, offset=0, folder=0, attribs=0x20, date=(2001, 2, 3), time=(4, 5, 6)),
+                 dict(name=b"b.bin", length=len(whole) - 300, offset=300, folder=0, attribs=0x20, date=(2001, 2, 3), time=(4, 5, 6))]
+        cut = len(payloads[0][0]) // 2
+        try:
+            parts = vcab.build_set([{"comp": comp, "blocks": payloads}], files, [("block", 0, 0, cut)], [(b"p1.cab", b"d1"), (b"p2.cab", b"d2")])
+        except Exception as e:
+            C.log(f"C12: split set generator failed: {e!r}"); continue
+        exp = [digest(whole[:300]), digest(whole[300:])]
+        tail = ["open i0 p1.cab", "open i0 p2.cab", "append i0 h0 h1", "extract i0 h0 0 o0", "extract i0 h0 1 o1", "close i0 h0", "destroy i0"]
+        yield [f"file p1.cab {parts[0].hex()}", f"file p2.cab {parts[1].hex()}", "new cab"] + tail, \
+              dict(family="cab.corrupt", variant="original", cab=f"split-c{comp}", expect=exp, altered=False)
+        # locate the CFDATA headers: the last block of part 1 (the leading piece, cbUncomp = 0) and the first of part 2
+        def data_blocks(cabb):
+            flags = struct.unpack_from("<H", cabb, 30)[0]; p = 36
+            if flags & 4: p = 40 + struct.unpack_from("<H", cabb, 36)[0]
+            for bit in (1, 2):
+                if flags & bit:
+                    for _ in range(2): p = cabb.index(b"\0", p) + 1
+            coff, nblk = struct.unpack_from("<IH", cabb, p)
+            out = []; q = coff
+            for _ in range(nblk):
+                cs = struct.unpack_from("<H", cabb, q + 4)[0]; out.append((q, cs)); q += 8 + cs
+            return out
+        try:
+            lead = data_blocks(parts[0])[-1]; trail = data_blocks(parts[1])[0]
+        except Exception as e:
+            C.log(f"C12: cannot locate split blocks: {e!r}"); continue
+        for which, (pi, (off, plen)) in (("leading", (0, lead)), ("trailing", (1, trail))):
+            positions = [("cksum", off + k) for k in range(4)] + [("usize", off + 6), ("usize", off + 7)]
+            pp = list(range(plen))
+            if ctx.tier == "quick" and plen > 40: pp = sorted(set(pp[:10] + pp[-10:] + rng.sample(pp, 20)))
+            positions += [("payload", off + 8 + k) for k in pp]
+            for (what, pos) in positions:
+                o = parts[pi][pos]
+                for v in sorted({(o + 1) & 255, o ^ 0x80} - {o}):
+                    c2 = parts[pi][:pos] + bytes([v]) + parts[pi][pos + 1:]
+                    fl = [f"file p1.cab {(c2 if pi == 0 else parts[0]).hex()}", f"file p2.cab {(c2 if pi == 1 else parts[1]).hex()}"]
+                    yield fl + ["new cab"] + tail, dict(family="cab.corrupt", variant=what + "-" + which, cab=f"split-c{comp}", block=0, pos=pos, value=v, expect=exp, altered=True)
 
 def oab_cases(ctx):
     """OAB full files and patches (incl. blocks whose correct CRC is 0): every byte of the uncompressed-size
